@@ -45,9 +45,51 @@ fn summary(s: &CpcSketch) -> Ob {
     vec![c as i128, off as i128, fic as i128, flavor as i128, canon(kxp), canon(hip)]
 }
 
+impl Fam {
+    /// C14: deserialize untrusted bytes; a value returned as Ok is dumped and then used like any sketch
+    fn deser_and_use(&self, bytes: &[u8]) -> Ob {
+        match CpcSketch::deserialize_with_seed(bytes, self.seed) {
+            Err(_) => vec![0],
+            Ok(t) => {
+                let mut ob: Ob = vec![1];
+                ob.extend(dumpnf(&t.verif_state()));
+                let mut u = t.clone();
+                let _ = u.estimate();
+                let _ = u.lower_bound(datasketches::common::NumStdDev::Two);
+                let _ = u.validate();
+                let _ = u.verif_bit_matrix();
+                for i in 0..40i64 {
+                    u.update(i);
+                }
+                let again = u.serialize();
+                let _ = CpcSketch::deserialize_with_seed(&again, self.seed).expect("round trip of an accepted image");
+                let mut un = CpcUnion::with_seed(t.lg_k(), self.seed);
+                un.update(&t);
+                un.update(&u);
+                let _ = un.to_sketch().validate();
+                let _ = datasketches::cpc::CpcWrapper::new(bytes).map(|w| w.estimate());
+                ob
+            }
+        }
+    }
+}
+
 impl Family for Fam {
     fn new(cfg: &[i128]) -> Self {
         Fam { lg_k: cfg[0] as u8, seed: cfg[1] as u64, sk: None, sks: HashMap::new(), uns: HashMap::new() }
+    }
+
+    fn parse_len(&self, code: i64, a: &[i128]) -> Option<usize> {
+        match code {
+            40 => Some(a.len()),
+            // the mutated image is at most 8 bytes longer than the sketch's own image; a truncated one is
+            // bounded by its cut position
+            41 => self.sk.as_ref().map(|s| {
+                let n = s.serialize().len();
+                if a[0] == 2 { (a[1] as usize) % (n + 1) } else { n }
+            }),
+            _ => None,
+        }
     }
 
     fn step(&mut self, code: i64, a: &[i128]) -> Ob {
@@ -80,6 +122,37 @@ impl Family for Fam {
                 let same = t.verif_bit_matrix() == s.verif_bit_matrix();
                 vec![c as i128, flavor as i128, off as i128, valid as i128, (!bytes.is_empty()) as i128,
                      t.num_coupons() as i128, same as i128]
+            }
+            40 => {
+                let bytes: Vec<u8> = a.iter().map(|b| *b as u8).collect();
+                self.deser_and_use(&bytes)
+            }
+            41 => {
+                let Some(s) = self.sk.as_ref() else { return vec![PANIC] };
+                let mut b = s.serialize();
+                let (kind, pos, val) = (a[0] as u32, a[1] as usize, a[2] as u64);
+                let n = b.len();
+                match kind {
+                    0 => b[pos % n] ^= 1 << (val % 8),
+                    1 => b[pos % n] = val as u8,
+                    2 => b.truncate(pos % (n + 1)),
+                    3 => {
+                        let o = 4 * (pos % (n / 4).max(1));
+                        if o + 4 <= n {
+                            b[o..o + 4].copy_from_slice(&(val as u32).to_le_bytes());
+                        }
+                    }
+                    4 => {
+                        for i in 0..(val % 9) {
+                            b.push((pos as u64).wrapping_mul(31).wrapping_add(i) as u8);
+                        }
+                    }
+                    _ => {
+                        b[pos % n] = val as u8;
+                        b[(pos / 7) % n] = (val >> 8) as u8;
+                    }
+                }
+                self.deser_and_use(&b)
             }
             10 => {
                 self.sks.insert(a[0], CpcSketch::with_seed(a[1] as u8, self.seed));
